@@ -396,6 +396,39 @@ def fourier_update_model(ctx, dim, what, tol, kind):
     ctx.ensure("state=fresh(seed,new-model,period,mode_no)", views_equal(ctx, gen_view(g), gen_view(fresh)))
 
 
+@contract(P, "Fourier.update[combined-arguments]/equals-fresh-generator",
+          params=[{"dim": d, "what": w} for d in (1, 2) for w in (
+              "same-model+period", "same-model+mode_no", "same-seed+period", "same-seed+mode_no",
+              "same-model+same-seed+period+mode_no", "new-seed+period")],
+          functions=FN_F, nsamples=1, search=20)
+def fourier_update_combined(ctx, dim, what):
+    """`update(model, seed, period, mode_no)` takes its arguments together; passing the model / seed the generator
+    already has is a legal way to say 'unchanged'.  Whatever is passed, the generator afterwards equals a freshly
+    built one with the resulting settings (mode mesh, spectrum factors and random amplitudes belong together)"""
+    mod, s, per, g = sym_fourier(ctx, dim)
+    per2, mn2, s2 = per, [2] * dim, s
+    kw = {}
+    if "period" in what:
+        per2 = ctx.reals("per2_", dim, pos=True)
+        for p in per2:
+            ctx.require(ctx.gt(p, 0))
+        kw["period"] = per2
+    if "mode_no" in what:
+        mn2 = [4] * dim
+        kw["mode_no"] = mn2
+    if "same-model" in what:
+        kw["model"] = mod
+    if "same-seed" in what:
+        kw["seed"] = s
+    if "new-seed" in what:
+        s2 = ctx.integer("seed2", lo=1001, hi=2000)
+        ctx.require(ctx.ne(s2, s))
+        kw["seed"] = s2
+    g.update(**kw)
+    fresh = _q(Fourier, mod, period=per2, mode_no=mn2, seed=s2)
+    ctx.ensure("state=fresh(model,seed,period,mode_no)", views_equal(ctx, gen_view(g), gen_view(fresh)))
+
+
 @contract(P, "Fourier.update[settings]/equals-fresh-generator",
           params=[{"dim": d, "what": w} for d in (1, 2) for w in ("period", "mode_no", "seed", "period-setter", "mode_no-setter")],
           functions=FN_F, nsamples=1, search=20)
